@@ -51,8 +51,17 @@ def run(tier, seed):
     from nflows.transforms import coupling as cp
     maxF = 4 if tier == "quick" else 6
     mm_idx, mm_val, n_idx, n_val = [], [], 0, 0
-    for Fe in range(1, maxF + 1):
-        for pat in all_patterns(Fe):
+    # exhaustively up to maxF features, then larger masks whose two sides are irregularly spaced (not arithmetic progressions,
+    # although their first two and last indices may suggest one), fixed and random
+    import random as _random
+    rr_ = _random.Random("c07-big-%d" % seed)
+    big = [(1, 0, 1, 1, 0, 0, 1, 0), (0, 1, 0, 0, 1, 1, 0, 1), (1, 0, 1, 1, 0, 0, 1), (0, 1, 0, 0, 1, 1, 0), (1, 1, 0, 1, 0, 0, 0, 1, 0),
+           (0, 0, 1, 0, 1, 1, 0, 0, 0, 1)]
+    big += [tuple(rr_.randint(0, 1) for _ in range(rr_.randint(7, 11))) for _ in range(8 if tier == "quick" else 40)]
+    big = [p_ for p_ in big if 0 < sum(p_) < len(p_)]
+    for pat in [p_ for Fe_ in range(1, maxF + 1) for p_ in all_patterns(Fe_)] + big:
+        Fe = len(pat)
+        if True:
             mask = mask_values(pat)
             imask = [int(2 * v) for v in mask]
             nontriv = 0 < sum(pat) < Fe
@@ -172,9 +181,18 @@ def perturbation(ck, cp, tier, seed):
         ("UMNNCouplingTransform", lambda m, f, **k: cp.UMNNCouplingTransform(m, f, integrand_net_layers=[8, 8], cond_size=3, nb_steps=8), {}),
     ]
     maxF = 3 if tier == "quick" else 5
+    import random as _random
+    rr_ = _random.Random("c07-big-perturb-%d" % seed)
+    bigp = [(1, 0, 1, 1, 0, 0, 1, 0), (0, 1, 0, 0, 1, 1, 0, 1), (0, 0, 1, 0, 1, 1, 0, 0, 0, 1)]
+    bigp += [tuple(rr_.randint(0, 1) for _ in range(rr_.randint(7, 10))) for _ in range(3 if tier == "quick" else 12)]
+    bigp = [p_ for p_ in bigp if 0 < sum(p_) < len(p_)]
     for name, ctor, kw in classes:
-        for Fe in range(2, maxF + 1):
-            for pat in all_patterns(Fe):
+        pats = [p_ for Fe_ in range(2, maxF + 1) for p_ in all_patterns(Fe_)]
+        if name in ("AffineCouplingTransform", "PiecewiseRationalQuadraticCouplingTransform"):
+            pats += bigp
+        for pat in pats:
+            Fe = len(pat)
+            if True:
                 if not 0 < sum(pat) < Fe:
                     continue
                 mask = mask_values(pat)
